@@ -50,6 +50,8 @@ class Decider:
                 return self.alias[e.id]
             return None
         t = norm(e)
+        if getattr(self, "_index_var", None) and t == f"{self.seq}[{self._index_var}]":
+            return "c"
         if t == f"{self.seq}[0]":
             return "first"
         if t == f"{self.seq}[-1]":
@@ -103,6 +105,19 @@ class Decider:
         r = self._regex_call(test, env)
         if r is not None:
             return r
+        if isinstance(test, ast.Call) and isinstance(test.func, ast.Name) and test.func.id in ("any", "all") and len(test.args) == 1 and isinstance(test.args[0], ast.GeneratorExp):
+            g = test.args[0]
+            if len(g.generators) == 1 and not g.generators[0].ifs and isinstance(g.generators[0].target, ast.Name) and norm(g.generators[0].iter) == self.seq:
+                saved = dict(self.loopvars)
+                self.loopvars = dict(saved)
+                self.loopvars[g.generators[0].target.id] = "c"
+                vals = []
+                for b in env["_seq"]:
+                    e2 = dict(env)
+                    e2["c"] = b
+                    vals.append(self.ev.truth(g.elt, e2))
+                self.loopvars = saved
+                return any(vals) if test.func.id == "any" else all(vals)
         if isinstance(test, ast.Name) and test.id == self.seq:
             # truth of a bytes value is `len(value) > 0`
             self.ev._note("L", 0)
@@ -146,6 +161,9 @@ class Decider:
             return "continue"
         if isinstance(st, ast.Break) and in_loop:
             return "break"
+        if isinstance(st, ast.Assign) and len(st.targets) == 1 and isinstance(st.targets[0], ast.Name) and in_loop and getattr(self, "_index_var", None) and norm(st.value) == f"{self.seq}[{self._index_var}]":
+            self.loopvars[st.targets[0].id] = "c"
+            return None
         if isinstance(st, ast.Assign) and len(st.targets) == 1 and isinstance(st.targets[0], ast.Name) and not in_loop:
             v = self._resolve(st.value)
             if v in ("first", "last", "L"):
@@ -159,11 +177,15 @@ class Decider:
                 names = (None, st.target.id)
             elif it == f"enumerate({self.seq})" and isinstance(st.target, ast.Tuple) and len(st.target.elts) == 2 and all(isinstance(x, ast.Name) for x in st.target.elts):
                 names = (st.target.elts[0].id, st.target.elts[1].id)
+            elif it == f"range(len({self.seq}))" and isinstance(st.target, ast.Name):
+                # index loop: the byte is read as seq[i] (bound to a local in the body, or used directly)
+                names = (st.target.id, None)
             else:
                 raise AnalysisError(f"{self.fn.qual}: unsupported loop header `for {norm(st.target)} in {it}`")
             for p, b in enumerate(shape):
                 e2 = dict(env)
-                self.loopvars = {names[1]: "c"}
+                self.loopvars = {names[1]: "c"} if names[1] else {}
+                self._index_var = names[0] if names[1] is None else None
                 e2["c"] = b
                 if names[0]:
                     self.loopvars[names[0]] = "i"
